@@ -133,6 +133,54 @@ def _fold(node):
     return F().visit(node)
 
 
+def _has_return(st):
+    return any(isinstance(x, ast.Return) for x in ast.walk(st))
+
+
+def _always_returns(blk):
+    if not blk:
+        return False
+    last = blk[-1]
+    if isinstance(last, ast.Return):
+        return True
+    if isinstance(last, ast.If) and last.orelse:
+        return _always_returns(last.body) and _always_returns(last.orelse)
+    return False
+
+
+def _nest(stmts):
+    """Single-exit form of a block with early returns: what follows an `if`
+    one of whose branches always returns becomes the other branch.  Returns
+    are then all in tail position.  None when a return sits in a loop / with
+    or both branches of an `if` can fall through (the rest would have to be
+    duplicated)."""
+    out = []
+    for i, st in enumerate(stmts):
+        if isinstance(st, ast.Return):
+            out.append(st)
+            return out
+        if isinstance(st, ast.If) and _has_return(st):
+            rest = list(stmts[i + 1:])
+            b_ret, e_ret = _always_returns(st.body), _always_returns(st.orelse)
+            if b_ret and e_ret:
+                nb, ne = _nest(st.body), _nest(st.orelse)
+            elif b_ret:
+                nb, ne = _nest(st.body), _nest(list(st.orelse) + rest)
+            elif e_ret:
+                nb, ne = _nest(list(st.body) + rest), _nest(st.orelse)
+            else:
+                return None
+            if nb is None or ne is None:
+                return None
+            new = ast.If(test=st.test, body=nb, orelse=ne)
+            out.append(ast.copy_location(new, st))
+            return out
+        if _has_return(st):
+            return None
+        out.append(st)
+    return out
+
+
 class Helper:
     def __init__(self, fn, kind):
         self.fn = fn
@@ -143,10 +191,12 @@ class Helper:
         for p, d in zip(pos[len(pos) - len(fn.args.defaults):], fn.args.defaults):
             self.defaults[p.arg] = d
         self.body = _strip_doc(fn.body)
-        self.shape = None                   # block | choice
+        self.shape = None                   # block | choice | nested
         self.assigns = []                   # leading simple assignments (choice)
         self.ret = None                     # block: returned expr or None
+        self.nested = False
         self.classify()
+        self.finish_classify()
 
     def classify(self):
         fn = self.fn
@@ -172,10 +222,13 @@ class Helper:
                 if isinstance(f, ast.Attribute) and f.attr == fn.name:
                     return
         rets = [x for x in ast.walk(fn) if isinstance(x, ast.Return)]
+        self.nested = False
         if not rets or (len(rets) == 1 and rets[0] is self.body[-1]):
             self.shape = "block"
             self.ret = rets[0].value if rets else None
             return
+        if _nest(self.body) is not None:
+            self.nested = True
         # choice: [simple assigns] ; if c: return A [else: return B] ... ; return Z
         i = 0
         while i < len(self.body) and isinstance(self.body[i], ast.Assign) and \
@@ -198,6 +251,10 @@ class Helper:
         self.shape = "choice"
         self.assigns = self.body[:i]
         self.rest = rest
+
+    def finish_classify(self):
+        if self.shape is None and self.nested:
+            self.shape = "nested"
 
     def choice_expr(self):
         """The guard-clause chain as one conditional expression."""
@@ -371,6 +428,8 @@ class Inliner:
         bind = self.bind(h, call, recv)
         if bind is None:
             return None
+        if h.shape == "nested":
+            return self.expand_nested(st, h, call, recv, caller, bind)
         body = h.body
         ret = h.ret
         if h.shape == "choice":
@@ -473,9 +532,139 @@ class Inliner:
         self.done.append(h.fn.name)
         return out
 
+    def _final(self, st, rexpr):
+        """Statements that do with the helper's result what `st` did with
+        the call."""
+        out = []
+        tgt = st.targets[0] if isinstance(st, ast.Assign) and len(st.targets) == 1 else None
+        if isinstance(st, ast.Expr) and isinstance(st.value, ast.Yield):
+            y = ast.Yield(value=rexpr if rexpr is not None else ast.Constant(value=None))
+            out.append(ast.copy_location(ast.Expr(value=ast.copy_location(y, st.value)), st))
+        elif isinstance(st, ast.Expr):
+            if rexpr is not None and not _simple(rexpr):
+                out.append(ast.copy_location(ast.Expr(value=rexpr), st))
+        elif isinstance(st, ast.Return):
+            out.append(ast.copy_location(
+                ast.Return(value=rexpr if rexpr is not None else ast.Constant(value=None)), st))
+        else:
+            if rexpr is None:
+                rexpr = ast.Constant(value=None)
+            if isinstance(tgt, ast.Tuple) and isinstance(rexpr, ast.Tuple) and \
+                    len(tgt.elts) == len(rexpr.elts) and \
+                    all(isinstance(t, ast.Name) for t in tgt.elts):
+                items = [(t, r) for t, r in zip(tgt.elts, rexpr.elts)
+                         if not (isinstance(r, ast.Name) and r.id == t.id)]
+                tn = [t.id for t, _r in items]
+                safe = all(not (set(tn[:i]) & _names(r)) for i, (_t, r) in enumerate(items))
+                if safe:
+                    for t, r in items:
+                        asg = ast.Assign(targets=[ast.Name(id=t.id, ctx=ast.Store())], value=r)
+                        out.append(ast.copy_location(asg, st))
+                else:
+                    out.append(ast.copy_location(
+                        ast.Assign(targets=[clone(tgt)], value=rexpr), st))
+            elif isinstance(tgt, ast.Name) and isinstance(rexpr, ast.Name) and rexpr.id == tgt.id:
+                pass
+            else:
+                out.append(ast.copy_location(
+                    ast.Assign(targets=clone(st.targets), value=rexpr), st))
+        return out
+
+    def expand_nested(self, st, h, call, recv, caller, bind):
+        """A helper with early returns, in single-exit form: every tail
+        `return e` becomes what the call site does with e."""
+        nested = _nest(h.body)
+        if nested is None:
+            return None
+        rets = [x for x in ast.walk(h.fn) if isinstance(x, ast.Return)]
+        stored = {n.id for b in h.body for n in ast.walk(b)
+                  if isinstance(n, ast.Name) and isinstance(n.ctx, ast.Store)}
+        taken = _names(caller) | {a.arg for a in caller.args.args} | \
+            {n for a in bind.values() for n in _names(a)}
+        tgt = st.targets[0] if isinstance(st, ast.Assign) and len(st.targets) == 1 else None
+        pre, subst, mapping = [], {}, {}
+        for p, a in bind.items():
+            uses = sum(1 for b in h.body for n in ast.walk(b)
+                       if isinstance(n, ast.Name) and n.id == p and isinstance(n.ctx, ast.Load))
+            if p not in stored and (_simple(a) or uses <= 1):
+                subst[p] = a
+                continue
+            # a parameter the helper updates and hands back to the very
+            # variable it came from is that variable
+            direct = False
+            if isinstance(a, ast.Name) and tgt is not None and rets:
+                def pos_ok(r):
+                    v = r.value
+                    if isinstance(tgt, ast.Name):
+                        return isinstance(v, ast.Name) and v.id == p and tgt.id == a.id
+                    if isinstance(tgt, ast.Tuple) and isinstance(v, ast.Tuple) and \
+                            len(v.elts) == len(tgt.elts):
+                        ks = [k for k, t in enumerate(tgt.elts)
+                              if isinstance(t, ast.Name) and t.id == a.id]
+                        return len(ks) == 1 and isinstance(v.elts[ks[0]], ast.Name) and \
+                            v.elts[ks[0]].id == p and \
+                            sum(isinstance(e, ast.Name) and e.id == p for e in v.elts) >= 1
+                    return False
+                direct = all(pos_ok(r) for r in rets) and \
+                    sum(1 for b in bind.values() if a.id in _names(b)) == 1
+            if direct:
+                mapping[p] = a.id
+            else:
+                nm = self.fresh(p, taken)
+                taken.add(nm)
+                mapping[p] = nm
+                asg = ast.Assign(targets=[ast.Name(id=nm, ctx=ast.Store())], value=clone(a))
+                pre.append(ast.copy_location(asg, st))
+        for L in sorted(stored - set(bind)):
+            nm = self.fresh(L, taken)
+            taken.add(nm)
+            mapping[L] = nm
+        rn = _Rename(mapping, subst)
+
+        def finish(blk):
+            blk = list(blk)
+            if blk and isinstance(blk[-1], ast.Return):
+                r = blk.pop()
+                rexpr = rn.visit(clone(r.value)) if r.value is not None else None
+                return blk + self._final(st, rexpr)
+            if blk and isinstance(blk[-1], ast.If) and _has_return(blk[-1]):
+                last = blk.pop()
+                new = ast.If(test=last.test, body=finish(last.body) or
+                             [ast.copy_location(ast.Pass(), last)],
+                             orelse=finish(last.orelse))
+                return blk + [ast.copy_location(new, last)]
+            return blk + self._final(st, None)
+
+        def conv(blk):
+            """Clone + rename the non-return statements, keep Returns (and the
+            ifs that hold them) as structure for finish()."""
+            out = []
+            for b in blk:
+                if isinstance(b, ast.Return):
+                    out.append(b)
+                elif isinstance(b, ast.If) and _has_return(b):
+                    new = ast.If(test=rn.visit(clone(b.test)), body=conv(b.body),
+                                 orelse=conv(b.orelse))
+                    out.append(ast.copy_location(new, b))
+                else:
+                    out.append(rn.visit(clone(b)))
+            return out
+        out = pre + finish(conv(nested))
+        if not out:
+            out.append(ast.copy_location(ast.Pass(), st))
+        out = [_fold(o) for o in out]
+        for o in out:
+            ast.fix_missing_locations(o)
+        if isinstance(recv, tuple):
+            self.local_done.append((recv[1], h.fn))
+        self.done.append(h.fn.name)
+        return out
+
     def expand_expr(self, call, h, recv):
         """Replacement expression for a nested call of a returns-only choice /
         one-expression helper, or None."""
+        if h.shape == "nested":
+            return None
         if h.shape == "choice" and h.assigns:
             return None
         if h.shape == "block" and not (len(h.body) == 1 and h.ret is not None):
